@@ -1,7 +1,7 @@
 import TexelVerif.PosImpl.History
 import TexelVerif.PosImpl.Serial
 import TexelVerif.PosImpl.MatId
--- import TexelVerif.Chess.FenRT
+import TexelVerif.Chess.FenRT
 /-!
 # C02 — position state survives any make/unmake history intact
 
@@ -196,5 +196,92 @@ theorem hash_congr (T : Tables) (s t : PosImpl) (hs : PosImpl.Inv T s) (ht : Pos
   obtain ⟨h1, h2, h3, h4⟩ := h
   rw [hs, ht]
   simp only [fresh, freshHash, h1, h2, h3, h4, true_and]
+
+/-! ## compact serialisation (position.cpp:420-499)
+
+The field widths are the side conditions: piece codes < 16, castle mask < 16, `halfMoveClock < 256`,
+`fullMoveCounter < 65536`; the e.p. square needs none (-1 ↦ 0xff ↦ -1). -/
+
+theorem decode_serialize (s : PosImpl) (hp : ∀ i : Fin 64, s.squares[i] < 16) (hc : s.castleMask < 16)
+    (hh : s.halfMoveClock < 256) (hf : s.fullMoveCounter < 65536) : decode (serialize s) = abs s :=
+  PosImpl.decode_serialize s hp hc hh hf
+
+/-- a serialised position read back is identical (every field) -/
+theorem deSerialize_serialize (T : Tables) (s : PosImpl) (hI : PosImpl.Inv T s) (hp : ∀ i : Fin 64, s.squares[i] < 16)
+    (hc : s.castleMask < 16) (hh : s.halfMoveClock < 256) (hf : s.fullMoveCounter < 65536) :
+    deSerialize T (serialize s) = s :=
+  PosImpl.deSerialize_serialize T s hI hp hc hh hf
+
+/-- the five words fit 64 bits (so the `Nat` model of the `U64` words loses nothing) -/
+theorem serialize_words_lt (s : PosImpl) (hp : ∀ i : Fin 64, s.squares[i] < 16) (hc : s.castleMask < 16)
+    (hh : s.halfMoveClock < 256) (hf : s.fullMoveCounter < 65536) : ∀ w ∈ serialize s, w < 2 ^ 64 :=
+  PosImpl.serialize_lt s hp hc hh hf
+
+/-- the width conditions are necessary: `halfMoveClock = 256` is read back as 0 … -/
+theorem serialize_hmc_witness :
+    PosImpl.Inv T0 (witness 256 1) ∧ (witness 256 1).halfMoveClock = 256 ∧
+    deSerialize T0 (serialize (witness 256 1)) ≠ witness 256 1 :=
+  ⟨witness_inv_hmc, rfl, deSerialize_hmc_witness⟩
+
+/-- … and `fullMoveCounter = 65536` is read back as 0 -/
+theorem serialize_fmc_witness :
+    PosImpl.Inv T0 (witness 0 65536) ∧ (witness 0 65536).fullMoveCounter = 65536 ∧
+    deSerialize T0 (serialize (witness 0 65536)) ≠ witness 0 65536 :=
+  ⟨witness_inv_fmc, rfl, deSerialize_fmc_witness⟩
+
+/-! ## FEN (textio.cpp:34-266) -/
+
+/-- a position that the reader accepts and normalises to, written as FEN and read back, is identical -/
+theorem readFEN_toFEN (p : Pos) (h : WFfen p) : readFEN (toFEN p) = .ok p := Chess.readFEN_toFEN p h
+
+/-- without the e.p. normalisation (positions produced by raw `makeMove`): identical up to the reader's
+    e.p. fix-up `fixupEP` (an e.p. square is kept only if an e.p. capture is legal) -/
+theorem readFEN_toFEN_general (p : Pos) (h : WFfenPre p) : readFEN (toFEN p) = .ok (fixupEP p) :=
+  Chess.readFEN_toFEN_fixup p h
+
+/-! ## material identifier
+
+`matIdNat c` is the mathematically exact sum of the `MatId` weights for piece counts `c`; `PromoConsistent c`
+= counts that legal play can produce (extra pieces come from promoted pawns; up to 9 queens per side). -/
+
+/-- **defect of the original code**: with six black queens the exact identifier does not fit a signed 32-bit
+    `int`, so `MatId::hash += …` overflowed (undefined behaviour) -/
+theorem matId_overflow_witness : ∃ c, PromoConsistent c ∧ matIdNat c ≥ 2 ^ 31 := PosImpl.matId_overflow_witness
+
+/-- the original signed arithmetic step by step: the sixth black queen overflows -/
+theorem matId_old_six_black_queens :
+    ((((((some 0 : Option Int).bind (MatIdOld.addPiece · BQUEEN)).bind (MatIdOld.addPiece · BQUEEN)).bind
+      (MatIdOld.addPiece · BQUEEN)).bind (MatIdOld.addPiece · BQUEEN)).bind (MatIdOld.addPiece · BQUEEN)) = some 1934295040 ∧
+    MatIdOld.addPiece 1934295040 BQUEEN = none := MatIdOld.six_black_queens
+
+/-- **second defect**: `Evaluate::materialScore` computed `(id >> 16) * 40507 + id` in signed `int`; four black
+    queens already overflow it -/
+theorem matKey_overflow_witness : ∃ c, PromoConsistent c ∧ matIdNat c < 2 ^ 31 ∧ keyNat (matIdNat c) ≥ 2 ^ 31 :=
+  PosImpl.matKey_overflow_witness
+
+/-- repaired (unsigned) arithmetic: both 16-bit halves stay in range, so the 32-bit sum never wraps … -/
+theorem matId_in_uint32 (c : Counts) (h : PromoConsistent c) :
+    whiteHalf c < 65536 ∧ blackHalf c < 65536 ∧ matIdNat c < 2 ^ 32 ∧ (BitVec.ofNat 32 (matIdNat c)).toNat = matIdNat c :=
+  ⟨(half_lt c h).1, (half_lt c h).2, matId_lt c h, matId_toNat c h⟩
+
+/-- … and the identifier is unique per material configuration that legal play can produce -/
+theorem matId_injective (c₁ c₂ : Counts) (h₁ : PromoConsistent c₁) (h₂ : PromoConsistent c₂)
+    (h : matIdNat c₁ = matIdNat c₂) : c₁ = c₂ := PosImpl.matId_injective c₁ c₂ h₁ h₂ h
+
+/-- the model's `matId` field with the real weight table is that identifier (as a 32-bit value) -/
+theorem matId_model (T : Tables) (hT : T.mat = matTable) (s : PosImpl) (h : PosImpl.Inv T s) :
+    s.matId = BitVec.ofNat 32 (matIdNat (countsOf s.squares)) := by
+  rw [h]
+  show sum32 (fun sq => T.mat (getP s.squares sq)) = _
+  rw [hT]; exact sum32_matTable s.squares
+
+/-! ## the hypotheses are satisfiable -/
+
+/-- a tiny position: bare kings, white to move; the king move a1-a2 is pseudo-legal, the e.p. condition holds -/
+example : let p : Pos := { b := (Vector.replicate 64 0 |>.set 0 WKING |>.set 63 BKING), wtm := true, castle := 0, ep := none, hmc := 0, fmc := 1 }
+    pseudo p ⟨0, 8, 0⟩ = true ∧ EpOk p := by decide
+example (T : Tables) (p : Pos) : PosImpl.Inv T (fresh T p) := fresh_inv T p
+example : PromoConsistent { wq := 9, wr := 2, wb := 2, wn := 2, wp := 0, bq := 9, br := 2, bb := 2, bn := 2, bp := 0 } := by decide
+example : WFfen fenStartPos := WFfen_start
 
 end Props.C02
